@@ -515,10 +515,10 @@ func raceKey(blk string) string {
 	for _, l := range strings.Split(blk, "\n") {
 		l = strings.TrimSpace(l)
 		if strings.HasPrefix(l, "github.com/pion/rtcp.") {
-			if i := strings.Index(l, "("); i > 0 {
-				l = l[:i]
+			if i := strings.LastIndex(l, "("); i > 0 {
+				l = l[:i] // drop the argument list, keep a "(*T)" receiver
 			}
-			fns = append(fns, l)
+			fns = append(fns, strings.TrimPrefix(l, "github.com/pion/rtcp."))
 		}
 	}
 	if len(fns) == 0 {
